@@ -201,6 +201,18 @@ def parse_sound(E, R, n):
     E.check(rd.short_reads == 0, "no read came back short on an accepted input")
     E.check_eq(P.cmds, ref[0], "parsed commands equal the reference parse")
     E.check(rd.pos == ref[1], "consumed exactly CompactSize + declared bytes")
+    # a parsed script serialises like any other script: standard minimal push for every element
+    def is_elem(c):
+        return isinstance(c, (bytes, bytearray)) or hasattr(c, "bs")
+    if all((not is_elem(c)) or 1 <= len(c) <= 520 for c in ref[0]):
+        exp = b""
+        for c in ref[0]:
+            if is_elem(c):
+                exp = exp + spec_push_prefix(len(c)) + c
+            else:
+                exp = exp + (bytes([c]) if isinstance(c, int) else c.to_bytes(1, "little"))
+        rs = E.run(P.raw_serialize)
+        E.check_eq(rs if not isinstance(rs, Raised) else None, exp, "a parsed script re-serialises with standard minimal pushes")
     return "acc"
 
 
